@@ -555,10 +555,59 @@ pub fn run(ctx: &Ctx) -> Report {
         st = st.merge(st8);
     }
 
+    // (9) a missing mandatory header is reported as such (SignatureDoesNotMatch, 403) also when something that later rules
+    //     look at is wrong as well: a malformed or cut-short date, a four-part credential, a foreign scope, an expired date
+    {
+        let n9 = (3 * 6 * 2) as u64;
+        let base9 = base2 + n_seq + 60_000_000;
+        let st9 = par_sweep(n9, |i, st| {
+            let mut x = i as usize;
+            let carrier = if x % 2 == 0 { Carrier::Header } else { Carrier::Query };
+            x /= 2;
+            let later = x % 6;
+            x /= 6;
+            let missing = x; // 0 host, 1 always-required, 2 header under a prefix
+            let mut plan = e2e::base_plan(carrier);
+            plan.headers.push(("X-Req-A".into(), b"r".to_vec()));
+            plan.headers.push(("X-P-1".into(), b"p".to_vec()));
+            plan.signed.push("x-req-a".into());
+            plan.signed.push("x-p-1".into());
+            match missing {
+                0 => plan.signed.retain(|h| h != "host"),
+                1 => plan.signed.retain(|h| h != "x-req-a"),
+                _ => plan.signed.retain(|h| h != "x-p-1"),
+            }
+            match later {
+                0 => plan.date_text = "2015/08/30T12/36/00Z".into(),
+                1 => plan.date_text = "20150830T1236".into(),
+                2 => plan.scope = "20150830/us-east-1/service".into(),
+                3 => plan.scope = "20150830/eu-west-1/service/aws4_request".into(),
+                4 => {
+                    plan.instant = refmodel::Instant::new(e2e::base_instant().secs - 3600, 0);
+                    plan.date_text = plan.instant.compact();
+                }
+                _ => {}
+            }
+            let mut cfg = Cfg::basic(e2e::base_instant());
+            cfg.reqs = ReqSpec { always: vec!["X-Req-A".into()], if_in_request: vec![], prefixes: vec!["x-p-".into()], how: Some(ReqBuild::VecNew) };
+            let case = Case { wire: WireReq::from_wire(&build(&plan).wire), cfg, prov: ProvSpec::standard() };
+            let before = st.violations.len();
+            let j = e2e::judge_into(base9 + i as u64, &case, st);
+            if st.violations.len() > before {
+                if let Some(v) = st.violations.last_mut() {
+                    v.what = format!("missing-mandatory-header-and-a-later-defect(missing {}, later defect {}):{}", ["host", "x-req-a", "x-p-1"][missing], later, v.what);
+                }
+            }
+            st.state(&(missing, later, j.reference.stage as u8, "later-defects"));
+            st.nontrivial(&(missing, later, carrier, "later-defects"));
+        });
+        st = st.merge(st9);
+    }
+
     Report {
         stats: st,
         rule: format!(
-            "64 requirement sets (always ⊆ {{x-req-a, Content-Type}}, if-in-request ⊆ {{x-opt-c, ETag}}, prefixes ⊆ {{x-p-, X-Amz}}) x {} letter-case styles x {} ways of building the requirements (slice, VecSignedHeaderRequirements::new, add_*, add_* then remove_* of decoys) x every subset of 7 optional request headers (one of them named exactly like the declared prefix x-p-; values rotate through empty, blank and non-empty; for every second case each header is repeated as a query parameter of the same name and value) x every signed subset of the present headers and x-amz-date x {{host, :authority, neither}}; every request is correctly signed over exactly the list it declares, so only the requirement rules can refuse it. Oracle: reference verifier (Ok iff host/:authority signed, every always-header signed, every present conditional header signed, every present header matching a prefix — including x-amz-date and authorization-related ones — signed; otherwise SignatureDoesNotMatch/403 and an empty provider log). plus every sequence of up to {} add_*/remove_* operations over three names (two of them case variants of each other) on VecSignedHeaderRequirements, compared with a set model of what was declared; plus signed-header lists as multisets (a name repeated once / twice, every entry doubled, a name of a header not sent, as many repeats as there are unsigned sent headers) x 64 requirement sets x 15 header presence sets x every signed subset; plus 256 requirement sets whose declarations overlap (names declared always / conditionally required that also fall under a declared prefix, x-amz-date declared conditional, one name in two categories) x every presence subset of 5 headers x every signed subset x x-amz-date signed or not; plus a form POST with an empty and a dot path segment signed correctly under each of the 4 readings (folded or not, S3 path or normalised) x the server running each of the 4 option sets x 64 requirement sets x every signed subset of its 5 headers and x-amz-date x carrier (a signature good for another reading of the request never excuses an unsigned mandatory header); plus a header named <prefix><c>[tag] for every character c a header name may contain (51), unsigned and signed, under two declared prefixes, requirements built three ways; plus, for 4 required names (always / conditional), a signed list of 7 sorted names that holds a near-miss of the required name (10 kinds: a suffix, one character more or fewer, a separator appended, a character prepended) with or without the name itself. states = (requirement set, accepted)",
+            "64 requirement sets (always ⊆ {{x-req-a, Content-Type}}, if-in-request ⊆ {{x-opt-c, ETag}}, prefixes ⊆ {{x-p-, X-Amz}}) x {} letter-case styles x {} ways of building the requirements (slice, VecSignedHeaderRequirements::new, add_*, add_* then remove_* of decoys) x every subset of 7 optional request headers (one of them named exactly like the declared prefix x-p-; values rotate through empty, blank and non-empty; for every second case each header is repeated as a query parameter of the same name and value) x every signed subset of the present headers and x-amz-date x {{host, :authority, neither}}; every request is correctly signed over exactly the list it declares, so only the requirement rules can refuse it. Oracle: reference verifier (Ok iff host/:authority signed, every always-header signed, every present conditional header signed, every present header matching a prefix — including x-amz-date and authorization-related ones — signed; otherwise SignatureDoesNotMatch/403 and an empty provider log). plus every sequence of up to {} add_*/remove_* operations over three names (two of them case variants of each other) on VecSignedHeaderRequirements, compared with a set model of what was declared; plus signed-header lists as multisets (a name repeated once / twice, every entry doubled, a name of a header not sent, as many repeats as there are unsigned sent headers) x 64 requirement sets x 15 header presence sets x every signed subset; plus 256 requirement sets whose declarations overlap (names declared always / conditionally required that also fall under a declared prefix, x-amz-date declared conditional, one name in two categories) x every presence subset of 5 headers x every signed subset x x-amz-date signed or not; plus a form POST with an empty and a dot path segment signed correctly under each of the 4 readings (folded or not, S3 path or normalised) x the server running each of the 4 option sets x 64 requirement sets x every signed subset of its 5 headers and x-amz-date x carrier (a signature good for another reading of the request never excuses an unsigned mandatory header); plus a header named <prefix><c>[tag] for every character c a header name may contain (51), unsigned and signed, under two declared prefixes, requirements built three ways; plus, for 4 required names (always / conditional), a signed list of 7 sorted names that holds a near-miss of the required name (10 kinds: a suffix, one character more or fewer, a separator appended, a character prepended) with or without the name itself; plus an unsigned host / always-required / prefix-matched header together with a defect later rules look at (malformed or cut-short date, four-part credential, foreign scope, expired date) on both carriers: refused as a signature mismatch (403) for the header. states = (requirement set, accepted)",
             if thorough { 3 } else { 3 }, n_build, depth
         ),
         bounds: json!({"requirement_sets": 64, "shapes": n_shapes, "cases": total}),
